@@ -36,6 +36,19 @@ fn check(text: &str) -> Result<(), String> {
     // (2)+(3) position -> offset: None iff the line is missing, else inside the line, exact or clamped
     let path = PathBuf::from("/vp_c22.lua");
     let doc = LuaDocument::new(FileId { id: 0 }, &path, text, &li);
+    // ranges -> LSP ranges: both ends are the positions of the two offsets (hence ordered and in the document)
+    for a in 0..=text.len() {
+        if !text.is_char_boundary(a) { continue; }
+        for b in a..=text.len() {
+            if !text.is_char_boundary(b) { continue; }
+            let want = (li.get_line_col(TextSize::from(a as u32), text).unwrap(), li.get_line_col(TextSize::from(b as u32), text).unwrap());
+            let got = doc.to_lsp_range(rowan::TextRange::new(TextSize::from(a as u32), TextSize::from(b as u32)))
+                .map(|r| ((r.start.line as usize, r.start.character as usize), (r.end.line as usize, r.end.character as usize)));
+            if got != Some(want) { return Err(format!("to_lsp_range([{a},{b})) = {got:?}, expected {want:?}")); }
+            let p = doc.to_lsp_position(TextSize::from(b as u32)).map(|p| (p.line as usize, p.character as usize));
+            if p != Some(want.1) { return Err(format!("to_lsp_position({b}) = {p:?}, expected {:?}", want.1)); }
+        }
+    }
     for line in 0..nlines + 2 {
         for col in 0..text.chars().count() + 3 {
             let r = li.get_offset(line, col, text).map(|t| u32::from(t) as usize);
